@@ -44,6 +44,10 @@ CHECKS = {
    text="Bounded exhaustive exploration on the implementation under per-instruction work monitors: the standard instruction matrix (calibration), the journal-opcode operand x memory x storage product, key-journal instructions over 1 KiB..1 MiB of paid memory, reference journals over strings of 31..2^63 bytes, and CALLs into every precompile (1-9, 0x64-0x66) with sizes up to 1 MiB, modexp length triples up to 2^32 and blake2f round counts up to 2^32-1; for every executed instruction the state reads, heap bytes allocated and bytes retained by the recorder between its step callback and the next are compared with fixed multiples of the gas it consumed; unbounded loops are cut by a state-read sentinel and worker deaths are attributed to the case in flight.",
    tech="stateless bounded-exhaustive enumeration of inputs executed on the real code with per-instruction resource monitors (counting StateDB, runtime allocation counter, recorder retention) and fixed per-gas bounds",
    note="Allocation accounting is span-granular for small objects (64 KiB base allowance); verdicts are re-measured three times before being reported. Open findings: flat-fee reference/key journals (known_findings.txt)."),
+ "C04": dict(cat="fault_enumeration", ref="DESIGN.md §4 C04",
+   text="Fault enumeration on the implementation: every scenario call tree within the depth bound (frames with pre/post effects SSTORE/LOG, every call kind with values 0/1/more-than-balance into child frames, a precompile or a code-less account, 7 terminators) on the listed forks with Aspects bound to every contract; at every Aspect execution the scripted runtime answers ok / out of gas / revert / other failure / provider failure / ok-burning-all-gas, all answer vectors with at most k non-default answers; after each execution the storage of every contract, success flags and return-data sizes seen by callers, balances, nonces, code, self-destructs and logs are compared with a reference interpreter of the scenario AST in which a failed frame and its descendants contribute nothing.",
+   tech="stateless exhaustive enumeration of scenario trees x fault (answer) vectors up to a deviation bound, executed on the real EVM + real djpm.runAspect with a scripted stub runner; comparison with a reference interpreter of the scenario language",
+   note="The WASM runtime is outside the explored system (stub at run.Runner)."),
 }
 
 NOT_YET = {}
